@@ -23,10 +23,11 @@ lvars == <<vars, life, lifeStart>>
 
 InitL == Init /\ life = 1 /\ lifeStart = 1
 
-NextL ==
-    \/ Next /\ UNCHANGED <<life, lifeStart>>
-    \/ life < MaxLives /\ PEarlyClose /\ UNCHANGED <<life, lifeStart>>
-    \/ life < MaxLives /\ PReopen /\ life' = life + 1 /\ lifeStart' = pnext
+LStep == Next /\ UNCHANGED <<life, lifeStart>>
+LEarlyClose == life < MaxLives /\ PEarlyClose /\ UNCHANGED <<life, lifeStart>>
+LReopen == life < MaxLives /\ PReopen /\ life' = life + 1 /\ lifeStart' = pnext
+
+NextL == LStep \/ LEarlyClose \/ LReopen
 
 AllDoneL == AllDone /\ (life = MaxLives \/ pnext > N)
 TerminatingL == AllDone /\ UNCHANGED lvars
